@@ -244,8 +244,55 @@ def run_case(case):
                     if sig not in viol:
                         viol[sig] = {'signature': sig, 'what': obl.failed[nfail][0],
                                      'call': [fs_expr, lv_expr, bs_expr]}
+            # histories: the field-selection and level-data objects are kept and read from repeatedly (what was read
+            # before must not change what a read returns)
+            for fs_expr in hist_fsels:
+                fsel = eval(fs_expr, {'np': np})
+                fexp = select.fields_expected(ref.fields, fsel)
+                if fexp is None or fexp == select.RAISE:
+                    continue
+                try:
+                    fd = pck[fsel]
+                except Exception as e:
+                    continue          # the stateless sweep above judges this selector
+                for lv in range(nlev):
+                    nb = len(ref.boxes[lv])
+                    reads = ['0', str(nb - 1), 'slice(None,None,None)', '0', repr([nb - 1, 0]), repr([True] * nb), str(nb - 1)]
+                    try:
+                        ld = fd[lv]
+                    except Exception as e:
+                        continue
+                    for k, bs_expr in enumerate(reads):
+                        bsel = eval(bs_expr, {'np': np})
+                        bexp = select.boxes_expected(nb, bsel)
+                        if bexp is None or bexp == select.RAISE or is_lenient(fsel, bsel, fexp, bexp):
+                            continue
+                        what = 'ld = pck[%s][%d]; %s; ld[%s]' % (fs_expr, lv, '; '.join('ld[%s]' % r for r in reads[:k]), bs_expr)
+                        nfail = len(obl.failed)
+                        try:
+                            got = ld[bsel]
+                        except Exception as e:
+                            obl.fail('%s raised %s: %s' % (what, type(e).__name__, str(e)[:100]))
+                            got = None
+                        if got is not None:
+                            if bexp[0] == 'one':
+                                compare(obl, got, expected_array(ref, lv, bexp[1], fexp), what)
+                            elif not isinstance(got, list) or len(got) != len(bexp[1]):
+                                obl.fail('%s: returned %s, expected list of %d arrays' % (what, type(got).__name__, len(bexp[1])))
+                            else:
+                                for g, b in zip(got, bexp[1]):
+                                    if not compare(obl, g, expected_array(ref, lv, b, fexp), what + ' box %d' % b):
+                                        break
+                        if len(obl.failed) > nfail:
+                            sig = 'C01/history/' + classify(fs_expr, str(lv), bs_expr, fexp, bexp, 'wrong-data').split('/', 1)[1]
+                            if sig not in viol:
+                                viol[sig] = {'signature': sig, 'what': obl.failed[nfail][0], 'call': [fs_expr, str(lv), bs_expr], 'history': reads[:k + 1]}
+                            break
         return obl
 
+    hist_fsels = [repr(ref.fields[-1]), str(len(ref.fields) - 1), repr(list(range(len(ref.fields)))[1:]), repr(list(ref.fields)[1:]),
+                  'slice(1,None,None)', 'slice(None,None,None)', repr(list(range(len(ref.fields)))[::2])]
+    hist_fsels = [h for i, h in enumerate(hist_fsels) if h not in hist_fsels[:i] and h not in ('[]',)]
     results, exhaustive, stats = core.explore(path, max_paths=4)
     res.add_explore(results, exhaustive, stats)
     for ctx, obl in results:
